@@ -120,6 +120,18 @@ def run(ctx):
                  "placeholder line": other, "same line": ln}[taken]
 
         class RN(SeqHooks):
+            def before_inline(self, ev, func, args, kwargs):
+                # validation of the new value is C08's and C18's subject:
+                # here the value is taken as valid and only the order of
+                # the registry steps is decided
+                if func.name == "_validate_gfa_field":
+                    ev.events.append(("validate",))
+                    return None
+                if func.name in ("_field_or_default_datatype",
+                                 "_field_datatype"):
+                    return "Z"
+                return super().before_inline(ev, func, args, kwargs)
+
             def method(self, ev, base, name, args, kwargs, node):
                 if isinstance(base, Abs) and base.label == "gfa":
                     if name in ("line", "try_get_line", "_search_duplicate",
